@@ -33,7 +33,7 @@ DeclSets == {<<>>, <<DAs>>, <<DAs, DN>>, <<DS>>, <<DSm>>, <<DSw>>, <<DAm>>, <<DS
              <<DF, DAm>>, <<DB>>, <<DB, DF>>, <<DB, DB2>>, <<DBb, DAm>>, <<DBn>>, <<DS, DBs>>, <<DS, DS>>}
 
 Amts == {Lit(VMon(3)), Lit(VMon(0)), Var("amt"), Var("bal"), Var("balb"), Add(Var("amt"), Lit(VMon(1))), Sub(Var("amt"), Lit(VMon(5))),
-         Sub(Var("bal"), Var("fee")), Add(Lit(VMon(1)), Lit(VMonIn("EUR", 1))), Add(Var("n"), Lit(VMon(1))), Var("nope"), Lit(VNum(3)),
+         Sub(Var("bal"), Var("fee")), Add(Lit(VMon(1)), Lit(VMonIn("EUR", 1))), Sub(Lit(VMon(5)), Lit(VMonIn("EUR", 1))), Add(Var("n"), Lit(VMon(1))), Var("nope"), Lit(VNum(3)),
          Sub(Add(Lit(VMon(7)), Var("amt")), Var("amt")), Sub(Lit(VMon(7)), Var("amt")), Sub(Lit(VMon(7)), Lit(VMon(2))),
          \* the asset position of a literal: an asset, an asset variable, number arithmetic, a number variable
          MonLit(Lit(VAsset("USD")), 3), MonLit(Var("as"), 3), MonLit(Add(Lit(VNum(1)), Lit(VNum(2))), 10), MonLit(Var("n"), 10)}
